@@ -297,9 +297,36 @@ func reorganise(s *proc.Server, kind string) error {
 		return s.Compact("level")
 	case "full":
 		return s.Compact("full")
+	case kindMergeVsFull:
+		// an out-of-order merge held inside its file replacement (it owns its input files
+		// until the end) while two full compactions are requested one after the other: the
+		// planner has to leave those files alone both times
+		if err := s.Points("replace-after-log=sleep(600)"); err != nil {
+			return err
+		}
+		errs := make(chan error, 3)
+		go func() { errs <- s.Merge() }()
+		for _, d := range []time.Duration{150 * time.Millisecond, 320 * time.Millisecond} {
+			go func(d time.Duration) {
+				time.Sleep(d)
+				errs <- s.Compact("full")
+			}(d)
+		}
+		var first error
+		for i := 0; i < 3; i++ {
+			if err := <-errs; err != nil && first == nil {
+				first = err
+			}
+		}
+		if err := s.Points(""); err != nil && first == nil {
+			first = err
+		}
+		return first
 	}
 	return s.Merge()
 }
+
+const kindMergeVsFull = "merge-while-full-compactions-are-requested"
 
 type fileList struct {
 	Ordered   []string
@@ -693,13 +720,13 @@ func main() {
 			}
 			c.Sample(map[string]any{"fileset": 0, "config": fs.Config, "ops": strings.Join(ops, " "), "a_batch": fs.Steps[2].Points[:min(3, len(fs.Steps[2].Points))]})
 		}
-		for _, k := range kinds {
+		for _, k := range append(append([]string(nil), kinds...), kindMergeVsFull) {
 			w := <-sem
 			wg.Add(1)
 			go func(fs *fileSet, k string, w int) {
 				defer func() { sem <- w; wg.Done() }()
 				m := rn.uncrashed(fs, k, w)
-				if m > 0 {
+				if m > 0 && k != kindMergeVsFull {
 					mu.Lock()
 					plans = append(plans, plan{fs, k, m})
 					mu.Unlock()
